@@ -5,7 +5,7 @@ import AslModel.Lemmas.Cond
 Property theorems only (helper lemmas live in `Lemmas/Cond.lean`).
 
 Model: `Model/Cond.lean` (`step`/`run`/`endPass` = `CodeIFs` of `asmif.c` + dispatch of `as.c Produce_Code`
-+ balance check of `AssembleFile_ExitPass`), parameterised by `Cfg` (how far `CodeIFB` advances its argument
++ balance check of `AssembleFile_ExitPass`; `runL`/`passL` = the line loop of `ProcessFile` that an executed END ends), parameterised by `Cfg` (how far `CodeIFB` advances its argument
 index per iteration; whether a lone ELSECASE dereferences NULL; whether ENDCASE warns for a skipped SWITCH).
 Spec: `Spec/Cond.lean` (`sel`/`selB` = the leaves of the first true branch else default, `warnB`, `WellNested`;
 `codeOf`/`definedBy`/`usedBy` = code, defined symbols, referenced symbols of a list of assembled leaves), written
@@ -167,6 +167,110 @@ theorem C12_skeletons_wellnested (b : Block) :
     WellNested (flatB b) ∧ ∀ t ∈ flatB b, t.argsOK = true :=
   ⟨wn_flatB b [], argsOK_flatB b⟩
 
+/-! ## the ways a pass can end: end of the text, END -/
+
+/-- **The pass reads the text up to the first END in an assembled part.**  Whatever the lines are (any number of END
+lines, anywhere), the pass is the plain run over a prefix of the statements (`readL`), followed by the balance check. -/
+theorem C12_end_reads_prefix (cfg : Cfg) (ls : List Line) :
+    passL cfg ls = endPass (run cfg init (readL cfg init ls)) ∧ readL cfg init ls <+: stmtsOf ls :=
+  ⟨by rw [passL, runL_eq_run], readL_prefix init ls⟩
+
+/-- **An END in an assembled part ends the pass there** – the result is that of the text cut in front of the END,
+whatever follows (`rest`: also the ENDIF/ENDCASE lines that would have closed what is open); **an END in a part that
+is not assembled is no END** – the result is that of the text without this line. -/
+theorem C12_end_stops_or_is_skipped (cfg : Cfg) (pre : List Stmt) (rest : List Line) :
+    ((run cfg init pre).ifAsm = true →
+      passL cfg (pre.map Line.stmt ++ Line.endl :: rest) = passL cfg (pre.map Line.stmt)) ∧
+    ((run cfg init pre).ifAsm = false →
+      passL cfg (pre.map Line.stmt ++ Line.endl :: rest) = passL cfg (pre.map Line.stmt ++ rest)) := by
+  constructor
+  · intro h
+    have e : pre.map Line.stmt = pre.map Line.stmt ++ [] := by simp
+    rw [passL, passL, runL_stmts, e, runL_stmts]
+    simp [runL, h]
+  · intro h
+    rw [passL, passL, runL_stmts, runL_stmts]
+    simp [runL, h]
+
+/-- **Whether the END is in an assembled part is what the manual says** (`AssembledAt`, defined through the documented
+selection `selB` alone): for the beginning `pre` of any skeleton's text – any depth, IF family and SWITCH mixed, the
+point in any branch – the machine is assembling at the point iff an ordinary line put there would be selected.
+(`b0`, `b1`: `pre` closed right at the point, without / with the probe line; faithful as in `C12_select`.) -/
+theorem C12_end_live_iff (cfg : Cfg) (pre : List Stmt) (st : List Open) (b0 b1 : Block) (hw : wnRun [] pre = some st)
+    (h0 : flatB b0 = pre ++ closers st) (h1 : flatB b1 = pre ++ .leaf probeLeaf :: closers st)
+    (hf0 : faithfulB cfg b0 = true) (hf1 : faithfulB cfg b1 = true) :
+    (run cfg init pre).ifAsm = decide ((codeOf (selB b1)).length = (codeOf (selB b0)).length + 1) :=
+  live_at pre st b0 b1 hw h0 h1 hf0 hf1
+
+/-- … with a `CodeIFB` that looks at every argument, for every point of every skeleton text, as a statement about the
+SPEC predicate. -/
+theorem C12_end_live_iff_all_args (cfg : Cfg) (hs : cfg.ifbStride = 1) (pre : List Stmt) (live : Bool)
+    (h : AssembledAt pre live) : (run cfg init pre).ifAsm = live := by
+  obtain ⟨st, b0, b1, hw, h0, h1, hl⟩ := h
+  rw [hl]
+  exact live_at pre st b0 b1 hw h0 h1 (faithfulB_stride1 cfg hs b0) (faithfulB_stride1 cfg hs b1)
+
+/-- **Constructs left open at the end of the pass are rejected, whatever ended the pass.**  For every text `pre` that
+leaves a construct open (`OpenAtEnd`: the beginning of a skeleton's text cut inside an IF ladder or a SWITCH, at any
+depth): if the text simply ends there, "missing ENDIF/ENDCASE" is reported; and if an END is executed there – written
+in the open branch or issued by a macro / REPT body called there – the same error is reported, whatever lines follow
+the END.  (An END in a part that is not assembled is skipped: `C12_end_stops_or_is_skipped`; what then decides is the
+text without it.)  The assembler does not die, and the error makes `asl` exit with status 2 (`hardErrs ≠ []`). -/
+theorem C12_open_at_end_rejected (cfg : Cfg) (pre : List Stmt) (h : OpenAtEnd pre) :
+    (errMissEndif ∈ (passL cfg (pre.map Line.stmt)).errs ∧ (passL cfg (pre.map Line.stmt)).crashed = false ∧
+      hardErrs (passL cfg (pre.map Line.stmt)) ≠ []) ∧
+    ∀ rest, (run cfg init pre).ifAsm = true →
+      errMissEndif ∈ (passL cfg (pre.map Line.stmt ++ Line.endl :: rest)).errs ∧
+      (passL cfg (pre.map Line.stmt ++ Line.endl :: rest)).crashed = false ∧
+      hardErrs (passL cfg (pre.map Line.stmt ++ Line.endl :: rest)) ≠ [] := by
+  obtain ⟨o, st, hw⟩ := h
+  have hl := run_lock (cfg := cfg) pre init [] ⟨rfl, rfl⟩
+  rw [hw] at hl
+  have hc : (run cfg init pre).crashed = false := hl.1.1
+  have hs : (run cfg init pre).stack ≠ [] := fun h0 => by
+    have := (agree_stack_nil hl.1).1 h0
+    cases this
+  have key : errMissEndif ∈ (passL cfg (pre.map Line.stmt)).errs ∧ (passL cfg (pre.map Line.stmt)).crashed = false ∧
+      hardErrs (passL cfg (pre.map Line.stmt)) ≠ [] := by
+    have e : pre.map Line.stmt = pre.map Line.stmt ++ [] := by simp
+    rw [passL, e, runL_stmts]
+    simp only [runL]
+    unfold endPass
+    rw [if_neg (by simp [hc])]
+    cases hst : (run cfg init pre).stack with
+    | nil => exact absurd hst hs
+    | cons f r =>
+      refine ⟨by simp [M.err], by simpa [M.err] using hc, ?_⟩
+      intro h0
+      have : errMissEndif ∈ hardErrs ((run cfg init pre).err errMissEndif) := by
+        simp [hardErrs, M.err, errMissEndif]
+      rw [h0] at this
+      cases this
+  refine ⟨key, fun rest hlive => ?_⟩
+  rw [(C12_end_stops_or_is_skipped cfg pre rest).1 hlive]
+  exact key
+
+/-- The texts `C12_open_at_end_rejected` speaks about include every skeleton's text cut at any point: the cut text is
+either well nested (the cut fell between two top-level items) or leaves a construct open – never a statement in an
+illegal position. -/
+theorem C12_skeleton_cut (b : Block) (n : Nat) :
+    WellNested ((flatB b).take n) ∨ OpenAtEnd ((flatB b).take n) := by
+  have h := wn_flatB b []
+  rw [← List.take_append_drop n (flatB b), wnRun_append] at h
+  cases hw : wnRun [] ((flatB b).take n) with
+  | none => rw [hw] at h; cases h
+  | some st =>
+    cases st with
+    | nil => exact Or.inl hw
+    | cons o st => exact Or.inr ⟨o, st, hw⟩
+
+/-- In general: for *every* text with END lines, if what the pass reads is not well nested the pass is rejected
+(an error ≥ 1000 or, with the pinned `CodeELSECASE`, the assembler dies) – `C12_unbalanced` for passes ended by END. -/
+theorem C12_unbalanced_lines (cfg : Cfg) (ls : List Line) (h : ¬ WellNested (readL cfg init ls)) :
+    Bad (passL cfg ls) := by
+  rw [(C12_end_reads_prefix cfg ls).1]
+  exact C12_unbalanced cfg _ h
+
 /-- an unlabelled leaf `db n` -/
 abbrev pl (n : Nat) : Skel := .leaf { marker := n }
 
@@ -215,6 +319,25 @@ example :
       (.cons (.ladder (.sym .defined true false) (.cons (.leaf ⟨6, .equ, 11⟩) .nil) .done) .nil))
     (endPass (run {} init (flatB b))).defs = [7, 10, 510, 11] ∧ (endPass (run {} init (flatB b))).codes = [2, 4] ∧
       definedBy (selB b) = [7, 10, 510, 11] := by decide
+
+/-- open at the end: `IF 1 / db 1 / END` (END in the selected branch), `IFNDEF x / SWITCH 2 / CASE 2 / db 1 / END /
+ENDCASE / ENDIF` (END followed by the closing lines), `IF 0 / db 1 / ELSE / <macro issuing END>` -/
+example : OpenAtEnd [.iff 1 (.expr true), .leaf { marker := 1 }] := by decide
+example : (run {} init [.iff 1 (.expr true), .leaf { marker := 1 }]).ifAsm = true := by decide
+example : (passL {} [.stmt (.iff 1 (.sym .defined true false)), .stmt (.switch 1 (.int 2)), .stmt (.case [.int 2]),
+    .stmt (.leaf { marker := 1 }), .endl, .stmt (.endcase 0), .stmt (.endif 0)]).errs = [errMissEndif] := by decide
+example : (passL {} [.stmt (.iff 1 (.expr false)), .stmt (.leaf { marker := 1 }), .stmt (.elseif 0 false), .endl]).errs
+    = [errMissEndif] := by decide
+/-- an END in a skipped branch is no END: the program is well formed and the leaf behind it is assembled -/
+example : (passL {} [.stmt (.iff 1 (.expr false)), .endl, .stmt (.endif 0), .stmt (.leaf { marker := 7 })]).errs = [] ∧
+    (passL {} [.stmt (.iff 1 (.expr false)), .endl, .stmt (.endif 0), .stmt (.leaf { marker := 7 })]).codes = [7] := by decide
+/-- `AssembledAt`: the point behind `IF 0 / ELSE` is assembled, the point behind `IF 0` is not -/
+example : AssembledAt [.iff 1 (.expr false), .elseif 0 false] true :=
+  ⟨[.ifElse], .cons (.ladder (.expr false) .nil (.els .nil)) .nil,
+    .cons (.ladder (.expr false) .nil (.els (.cons (.leaf probeLeaf) .nil))) .nil, by decide, by decide, by decide, by decide⟩
+example : AssembledAt [.iff 1 (.expr false)] false :=
+  ⟨[.ifThen], .cons (.ladder (.expr false) .nil .done) .nil,
+    .cons (.ladder (.expr false) (.cons (.leaf probeLeaf) .nil) .done) .nil, by decide, by decide, by decide, by decide⟩
 
 example : ¬ WellNested [.iff 1 (.expr true), .elseif 0 false, .elseif 1 true, .endif 0] := by decide
 example : ¬ WellNested [.switch 1 (.int 1), .elsecase 0, .case [.int 1], .endcase 0] := by decide
